@@ -313,16 +313,40 @@ def spec_check(ops):
                     return n, 'setdefault replaced existing %r' % (k,)
         except Exception:
             pass
-        last = k.rsplit('.', 1)[-1]
-        if t == 'set' and simple and (last in ('keys', 'get', 'items', 'pop', 'update', 'copy', 'clear', 'set', 'values', 'setdefault') or last.startswith('__')):
-            try:
-                present = k in d
-            except Exception:
-                present = False
-            if present:
-                return n, 'reserved name %r accepted as a key' % (last,)
+        if t in ('set', 'setdefault') and simple:
+            comps = k.split('.')
+            for ci, comp in enumerate(comps):
+                if comp in ('keys', 'get', 'items', 'pop', 'update', 'copy', 'clear', 'set', 'values', 'setdefault') or comp.startswith('__'):
+                    pre = '.'.join(comps[:ci + 1])
+                    try:
+                        present = pre in d
+                    except Exception:
+                        present = False
+                    if present:
+                        return n, 'reserved name %r accepted as a key (path %r)' % (comp, pre)
     # copies are structurally independent
-    c = copy.deepcopy(d); snap = canon(d)
+    try:
+        c = copy.deepcopy(d); snap = canon(d)
+    except Exception as e:
+        return len(ops), 'the tree can no longer be deep-copied (%s): a reserved name got in as a level' % type(e).__name__
+    # ... the shallow copy too, as far as levels and lists go (copy.copy copies every level and every list; list ELEMENTS are
+    # shared, so only whole elements are replaced here)
+    try:
+        sc = copy.copy(d)
+    except Exception as e:
+        return len(ops), 'the tree cannot be copied (%s)' % type(e).__name__
+    for k in list(sc.keys())[:6]:
+        tgt = k if '[' not in k else k[:k.index(']') + 1]
+        try:
+            sc[tgt] = 777
+        except Exception:
+            pass
+    try:
+        sc['fresh_level.x'] = 1
+    except Exception:
+        pass
+    if canon(d) != snap:
+        return len(ops), 'mutating a shallow copy (replacing leaves / list elements, adding a level) changed the original'
     for k in list(c.keys())[:3]:
         try:
             c[k] = 12345
